@@ -508,6 +508,12 @@ def reshape(x, shape, merge_chunks=True, limit=None):
     if x.shape == shape:
         return x
 
+    if x.size == 0:
+        # An empty array has no elements to move, and the chunk arithmetic
+        # below divides by the axis lengths: gather its (empty) blocks into
+        # one and reshape that like a NumPy array.
+        x = x.rechunk(tuple((d,) for d in x.shape))
+
     # Single partition case: use simple blockwise reshape
     expr = x.expr
     npartitions = reduce(mul, (len(c) for c in expr.chunks), 1)
